@@ -8,33 +8,46 @@ Property theorems only (lemmas: `Spine/C04Thm.lean`, `Spine/HeapThm.lean`, `Spin
 witnesses: `Spine/C04Wit.lean`).
 
 Model: `Spine.updateListF` — `model.UpdateList` with `Merge`, `copyToSelectedData`, `copyToAllData`,
-`deleteFilteredData`, as a family indexed by defect flags (`UCfg`; the member with all flags on is proved equal to
-the transcription of the code as written, `c04_family_member_as_written`) — and `Spine.Heap.updateData`, i.e.
-`FunctionData.UpdateData` on a store whose slice sharing is explicit (`Cfg.fastpathRemote`: the filter-less fast
-path is taken by remote writes as well). An element is *writable* iff its `writecheck` flag is `true`
-(`writeAllowed`); a remote write is `updateData c sh h true true …` (what `executeWrite` issues).
+`deleteFilteredData`, as a family indexed by defect flags (`UCfg`) — and `Spine.Heap.updateData`, i.e.
+`FunctionData.UpdateData` on a store whose slice sharing is explicit (`Cfg`). An element is *writable* iff its
+`writecheck` flag is `true` (`writeAllowed`); a remote write is `updateData c sh h true true …` (what
+`executeWrite` issues). The probe phase of `TestHeap` selects the member the tree under test is.
 
-The four clauses of the statement and their status on the code as written:
+**Which member is /repo.** After `fix:` c542973 (Merge), 5e272e0 (selector with an empty list) and e4eb02d
+(SelectorMatch) /repo is `Heap.head`: `mergeStrict`, `emptySelPanics`, `selNilPanics` off; `fastpathRemote`,
+`fastpathAdopts`, `inplaceAltersFlag`, `deleteStrict` on. With the series `fixes/c04` (01, 02, 04) it is `Heap.patched`:
+additionally `inplaceAltersFlag`, `deleteStrict`, `fastpathAdopts` off. Every theorem below is stated for all
+members that have the flag it needs off (hypotheses such as `c.mergeStrict = false`); `head` and `patched` satisfy
+them by `rfl` (examples). The member with all flags on is the code at the pinned commit
+(`c04_family_member_as_written`); its refutation witnesses are kept as the record of what the repairs removed.
 
-1. unwritable elements untouched, no flag altered — REFUTED for the filter-less write (`c04_untouched_refuted`,
-   finding `fastpath-full-remote-write`) and for flags on the in-place paths (`c04_flag_refuted`, findings
-   `flag-altered:*`); PROVED for every write that goes through the engine, whatever its shape, in every member
-   (`c04_unwritable_untouched_engine`), hence for ALL remote writes in the member with the fast path closed
-   (`c04_unwritable_untouched_repaired`); flags: PROVED on the merge path (`c04_merge_protects`), for
-   identifier-less writes that carry no flag (`c04_copyToAll_flag`), and for the overlay of the in-place paths in
-   the member that puts the flag back (`c04_flag_kept_repaired`). Missing: the flag clause for a whole `UpdateList`
-   call of the repaired member (delete elements included) as one theorem.
-2. unaddressed elements neither change nor influence acceptance — REFUTED (`c04_unaddressed_refuted`, findings
-   `unaddressed-unwritable-blocks:Merge`, `…:deleteFilteredData`); "do not change" PROVED for the merge path in every
-   member (`c04_unaddressed_unchanged`); "do not influence" PROVED for the repaired `Merge`
-   (`c04_unaddressed_irrelevant_repaired`). Missing: the analogous repair / theorem for `deleteFilteredData`.
-3. error ⇒ data unchanged — REFUTED (`c04_error_unchanged_refuted`, findings `rejected-but-applied:*`); PROVED on
-   the merge path as heap contents (`c04_error_unchanged_merge`); on lists without unwritable elements no write
-   without delete-elements is rejected at all (`c04_all_writable_accepts`).
-4. success ⇒ all changes applied — REFUTED (`c04_success_applied_refuted`, finding `success-but-not-applied:Merge`);
-   PROVED for the addressed elements on the merge path (`c04_success_applied_merge`), and "nothing the write names is
-   missing" for the repaired `Merge` (`c04_success_nothing_missing_repaired`). Missing: the selector and delete
-   paths (monitored only).
+The four clauses:
+
+1. unwritable elements untouched, no flag altered.
+   1a PROVED for every write through the engine, every shape, every member (`c04_unwritable_untouched_engine`,
+   `…_inplace`). STILL REFUTED for the filter-less write on `head` and `patched` (`c04_untouched_refuted`, finding
+   `fastpath-full-remote-write`, semantics debatable); full clause for members with the fast path closed
+   (`c04_unwritable_untouched_fastpath_closed`).
+   1b flags: PROVED on the merge path for every member (`c04_merge_protects`); PROVED for a WHOLE remote
+   `UpdateList` call of any shape for members with `inplaceAltersFlag` off, i.e. `patched`
+   (`c04_flags_unchanged_engine`); REFUTED on `head` (`c04_flag_refuted`, findings `flag-altered:*`, removed by
+   fixes/c04/01).
+2. unaddressed elements neither change nor influence acceptance.
+   Merge path: PROVED at full strength for members with `mergeStrict` off, i.e. /repo now
+   (`c04_unaddressed_irrelevant_merge`: same addressed elements ⇒ same verdict of the whole `UpdateList` call;
+   `c04_unaddressed_unchanged`). Delete path: PROVED for members with `deleteStrict` off, i.e. `patched`
+   (`c04_unaddressed_irrelevant_delete`, `c04_unaddressed_kept_delete`); REFUTED on `head`
+   (`c04_unaddressed_delete_refuted`, finding `unaddressed-unwritable-blocks:deleteFilteredData`, removed by
+   fixes/c04/02). The selector and identifier-less paths address every element they can fail on (nothing to prove).
+   Record: `c04_unaddressed_merge_refuted_before_fix`.
+3. error ⇒ data unchanged — REFUTED on every member incl. `head`, `patched` (`c04_error_unchanged_refuted`,
+   findings `rejected-but-applied:*`; the in-place writes are codified by the repository's own tests); PROVED on the
+   merge path as heap contents for every member (`c04_error_unchanged_merge`); on lists without unwritable elements
+   no write without delete-elements is rejected (`c04_all_writable_accepts`, member as written).
+4. success ⇒ all changes applied. Merge path: PROVED at full strength for members with `mergeStrict` off, i.e.
+   /repo now (`c04_success_all_applied_merge`: every incoming item finds its element, every addressed element is the
+   overlay, the overlay carries every named field but the flag). Record: `c04_success_applied_refuted_before_fix`.
+   Selector / identifier-less / delete paths: monitored only (`notApplied` of the harness); no theorem.
 -/
 namespace Spine.Props.C04
 open Spine Spine.Heap
@@ -46,13 +59,16 @@ theorem c04_family_member_as_written (sh : Shape) (remote : Bool) (ex nw : List 
 
 /-! ### clause 1: elements whose flag is not true are untouched, no flag is altered -/
 
-/-- REFUTED on the code as written (finding `fastpath-full-remote-write`): "after any remote write every element
-    whose flag is not true is identical" — the filter-less write replaces the unchangeable limit 1. -/
+/-- STILL REFUTED on /repo (`head`) and on the patched member (finding `fastpath-full-remote-write`): "after any
+    remote write every element whose flag is not true is identical" — the filter-less write replaces the
+    unchangeable limit 1. -/
 theorem c04_untouched_refuted :
-    ∃ (h : H) (nw : List Item), h.WF ∧ ∃ e ∈ h.readStore, writeAllowed lc e = false ∧
-      e ∉ (updateData .asWritten lc h true true nw .nil .nil).1.readStore :=
-  ⟨storeOf [changeable0, fixed1], [[some 1, some 1, none, some 0, none]], wf_full wf_empty _,
-    fixed1, by decide, by decide, by decide⟩
+    ∀ c ∈ [head, patched], ∃ (h : H) (nw : List Item), h.WF ∧ ∃ e ∈ h.readStore, writeAllowed lc e = false ∧
+      e ∉ (updateData c lc h true true nw .nil .nil).1.readStore := by
+  intro c hc
+  refine ⟨storeOf [changeable0, fixed1], [[some 1, some 1, none, some 0, none]], wf_full wf_empty _, fixed1, by decide, by decide, ?_⟩
+  simp only [List.mem_cons, List.mem_nil_iff, or_false] at hc
+  rcases hc with rfl | rfl <;> decide
 
 /-- PROVED, every member of the family, every write shape (delete with selector and / or elements, selector write,
     identifier-less, identifier-based, combinations), persisting or not: a remote write that goes through the
@@ -68,9 +84,9 @@ example : fastPath .asWritten ((storeOf [fixed1, changeable2]).allocValue [[none
     (remoteWrite aw (storeOf [fixed1, changeable2]) [[none, none, none, some 2, none]] (.data ⟨some selAll, none⟩) .nil).1.readStore
       ≠ (storeOf [fixed1, changeable2]).readStore := by decide
 
-/-- PROVED for the repaired member (fast path closed for remote writes, DESIGN §9 C04a): EVERY remote write to an
-    existing store keeps every element whose flag is not true — the full clause 1a. -/
-theorem c04_unwritable_untouched_repaired (c : Cfg) (hc : c.fastpathRemote = false) (sh : Shape) (h : H) (hw : h.WF)
+/-- PROVED for every member with the fast path closed for remote writes (DESIGN §9 C04a, not decided): EVERY
+    remote write to an existing store keeps every element whose flag is not true — the full clause 1a. -/
+theorem c04_unwritable_untouched_fastpath_closed (c : Cfg) (hc : c.fastpathRemote = false) (sh : Shape) (h : H) (hw : h.WF)
     (hs : h.store.isSome = true) (persist : Bool) (nw : List Item) (fp fd : FArg) :
     ∀ e ∈ h.readStore, writeAllowed sh e = false → e ∈ (updateData c sh h true persist nw fp fd).1.readStore :=
   remote_engine_write_protects c sh hw persist nw fp fd
@@ -89,27 +105,40 @@ theorem c04_unwritable_untouched_inplace (c : UCfg) (sh : Shape) (ex nw : List I
     Prot sh ex r.inplace ∧ ∀ e ∈ ex, writeAllowed sh e = false → e ∈ r.out :=
   updateListF_remote_protects c sh ex nw fp fd r h
 
-/-- REFUTED on the code as written (findings `flag-altered:copyToAllData`, `…:copyToSelectedData`,
-    `…:deleteFilteredData`): "no remote write alters the flag of any element" — an identifier-less write and a
-    selector write that carry a flag copy it onto changeable elements, a delete whose elements name the flag clears it. -/
+/-- REFUTED on /repo (`head`; findings `flag-altered:copyToAllData`, `…:copyToSelectedData`,
+    `…:deleteFilteredData`, removed by fixes/c04/01): "no remote write alters the flag of any element" — an
+    identifier-less write and a selector write that carry a flag copy it onto changeable elements, a delete whose
+    elements name the flag clears it. -/
 theorem c04_flag_refuted :
-    (remoteWrite aw (storeOf [changeable0, changeable2]) [[none, some 0, none, none, none]] .nodata .nil).1.readStore.map (·.get 1)
+    (remoteWrite head (storeOf [changeable0, changeable2]) [[none, some 0, none, none, none]] .nodata .nil).1.readStore.map (·.get 1)
         ≠ (storeOf [changeable0, changeable2]).readStore.map (·.get 1) ∧
-    (remoteWrite aw (storeOf [changeable0, changeable2]) [[none, some 0, none, none, none]] (.data ⟨some (selId 0), none⟩) .nil).1.readStore.map (·.get 1)
+    (remoteWrite head (storeOf [changeable0, changeable2]) [[none, some 0, none, none, none]] (.data ⟨some (selId 0), none⟩) .nil).1.readStore.map (·.get 1)
         ≠ (storeOf [changeable0, changeable2]).readStore.map (·.get 1) ∧
-    (remoteWrite aw (storeOf [changeable0, changeable2]) [] .nil (.data ⟨some (selId 0), some elFlag⟩)).1.readStore.map (·.get 1)
+    (remoteWrite head (storeOf [changeable0, changeable2]) [] .nil (.data ⟨some (selId 0), some elFlag⟩)).1.readStore.map (·.get 1)
         ≠ (storeOf [changeable0, changeable2]).readStore.map (·.get 1) := by decide
 
-/-- PROVED for the member whose in-place paths put the flag back (candidate repair
-    `patches/C04-flag-altered-candidate.patch`, flag `inplaceAltersFlag` off): the overlay a selector write or an
-    identifier-less write applies to an item keeps the item's flag, whatever the write carries. -/
-theorem c04_flag_kept_repaired (c : UCfg) (hc : c.inplaceAltersFlag = false) (sh : Shape) (f : Nat)
+/-- PROVED at full strength for every member with `inplaceAltersFlag` off (`patched`), for a WHOLE remote
+    `UpdateList` call of any shape — delete with selector and / or elements, selector write, identifier-less,
+    identifier-based, combinations: position by position the stored array keeps every flag (`FlagSame`), and the
+    returned list corresponds one to one, up to `SortData`'s order, to a sub-list of the stored elements with the
+    same flags (`FlagsKept`). `Wide`: the incoming items are values of the item type (wide enough to carry a flag). -/
+theorem c04_flags_unchanged_engine (c : UCfg) (hc : c.inplaceAltersFlag = false) (sh : Shape) (f : Nat)
+    (hf : sh.flag = some f) (ex nw : List Item) (hnw : Wide f nw) (fp fd : Option Filter) (r : Res)
+    (h : updateListF c sh true ex nw fp fd = .ok r) :
+    FlagSame f ex r.inplace ∧ FlagsKept f ex r.out :=
+  updateListF_remote_flags c hc sh f hf ex nw hnw fp fd r h
+
+/-- non-vacuity: `patched` has the flag off; the three writes of the refutation apply their values and leave the flags -/
+example : patched.u.inplaceAltersFlag = false ∧
+    (remoteWrite patched (storeOf [changeable0, changeable2]) [[none, some 0, none, some 2, none]] .nodata .nil).1.readStore
+      = [[some 0, some 1, none, some 2, none], [some 2, some 1, none, some 2, none]] ∧
+    (remoteWrite patched (storeOf [changeable0, changeable2]) [] .nil (.data ⟨some (selId 0), some [none, some 0, none, some 0, none]⟩)).1.readStore
+      = [[some 0, some 1, none, none, none], changeable2] := by decide
+
+/-- the item-level fact behind it: the overlay of the in-place paths keeps the item's flag -/
+theorem c04_flag_kept_overlay (c : UCfg) (hc : c.inplaceAltersFlag = false) (sh : Shape) (f : Nat)
     (hf : sh.flag = some f) (nw x : Item) (hl : f < x.length) : (copyNonNilF c sh true nw x).get f = x.get f :=
   copyNonNilF_keeps_flag c hc sh f hf nw x hl
-
-/-- non-vacuity: the writes of the refutation, in the repaired member, apply their values and leave the flags -/
-example : (remoteWrite repaired (storeOf [changeable0, changeable2]) [[none, some 0, none, some 2, none]] .nodata .nil).1.readStore
-      = [[some 0, some 1, none, some 2, none], [some 2, some 1, none, some 2, none]] := by decide
 
 /-- PROVED (partial, every member): the merge path — identifier-based partial writes — never alters a flag and
     never touches an unwritable element, position by position. -/
@@ -134,13 +163,25 @@ theorem c04_copyToAll_flag (sh : Shape) (f : Nat) (hf : sh.flag = some f) (ex : 
 
 /-! ### clause 2: unaddressed elements neither change nor influence acceptance -/
 
-/-- REFUTED on the code as written (findings `unaddressed-unwritable-blocks:Merge`, `…:deleteFilteredData`): the
-    same write, addressing only limit 0, gets different answers on two stores that differ only in limit 1. -/
-theorem c04_unaddressed_refuted :
-    (remoteWrite aw (storeOf [changeable0, fixed1]) [[some 0, none, none, some 2, none]] .nodata .nil).2
-      ≠ (remoteWrite aw (storeOf [changeable0, changeable1]) [[some 0, none, none, some 2, none]] .nodata .nil).2 ∧
-    (remoteWrite aw (storeOf [changeable0, fixed1]) [] .nil (.data ⟨some (selId 0), none⟩)).2
-      ≠ (remoteWrite aw (storeOf [changeable0, changeable1]) [] .nil (.data ⟨some (selId 0), none⟩)).2 := by decide
+/-- PROVED at full strength for every member with `mergeStrict` off — /repo since c542973 — for the WHOLE
+    `UpdateList` call of an identifier-based remote write: two stored lists with the same addressed elements get the
+    same verdict. -/
+theorem c04_unaddressed_irrelevant_merge (c : UCfg) (hc : c.mergeStrict = false) (sh : Shape) (ex ex' nw : List Item)
+    (hnw : MergeNw sh nw) (h : ex.filter (addressedBy sh nw) = ex'.filter (addressedBy sh nw)) :
+    ∃ r r', updateListF c sh true ex nw none none = .ok r ∧ updateListF c sh true ex' nw none none = .ok r' ∧
+      r.ok = r'.ok := by
+  refine ⟨_, _, updateListF_merge c sh true ex nw hnw, updateListF_merge c sh true ex' nw hnw, ?_⟩
+  simp only [mergeF_fixed c hc, Bool.true_and]
+  rw [mergeFixed_verdict_addressed sh ex nw, mergeFixed_verdict_addressed sh ex' nw, h]
+
+/-- non-vacuity: `head` has the flag off; the two stores of the old refutation have the same addressed elements,
+    differ otherwise, and are now both accepted -/
+example : head.u.mergeStrict = false ∧ MergeNw lc [[some 0, none, none, some 2, none]] ∧
+    [changeable0, fixed1].filter (addressedBy lc [[some 0, none, none, some 2, none]])
+      = [changeable0, changeable1].filter (addressedBy lc [[some 0, none, none, some 2, none]]) ∧
+    (remoteWrite head (storeOf [changeable0, fixed1]) [[some 0, none, none, some 2, none]] .nodata .nil).2 = .done true 1 (some 2) ∧
+    (remoteWrite head (storeOf [changeable0, fixed1]) [[some 0, none, none, some 2, none]] .nodata .nil).1.readStore
+      = [[some 0, some 1, none, some 2, none], fixed1] := by decide
 
 /-- PROVED (every member, local and remote): an element the identifier-based write does not address passes through
     `Merge` unchanged. -/
@@ -148,34 +189,60 @@ theorem c04_unaddressed_unchanged (sh : Shape) (remote : Bool) (s2 : List Item) 
     (hu : addressedBy sh s2 a = false) : mergeItem sh remote s2 a = a :=
   mergeItem_unaddressed sh remote s2 a hu
 
-/-- PROVED for the repaired `Merge` (DESIGN §9 C04b, appendix C): the answer to a remote identifier-based write is a
-    function of the addressed elements alone — two stores with the same addressed elements get the same verdict. -/
-theorem c04_unaddressed_irrelevant_repaired (sh : Shape) (s1 s1' s2 : List Item)
-    (h : s1.filter (addressedBy sh s2) = s1'.filter (addressedBy sh s2)) :
-    (mergeFixed sh true s1 s2).2 = (mergeFixed sh true s1' s2).2 := by
-  rw [mergeFixed_verdict_addressed sh s1 s2, mergeFixed_verdict_addressed sh s1' s2, h]
+/-- RECORD (member before c542973; findings `unaddressed-unwritable-blocks:Merge`, fixed): the same write,
+    addressing only limit 0, got different answers on two stores that differ only in limit 1. -/
+theorem c04_unaddressed_merge_refuted_before_fix :
+    (remoteWrite aw (storeOf [changeable0, fixed1]) [[some 0, none, none, some 2, none]] .nodata .nil).2
+      ≠ (remoteWrite aw (storeOf [changeable0, changeable1]) [[some 0, none, none, some 2, none]] .nodata .nil).2 := by decide
 
-/-- non-vacuity: the two stores of the refutation have the same addressed elements and differ otherwise -/
-example : [changeable0, fixed1].filter (addressedBy lc [[some 0, none, none, some 2, none]])
-      = [changeable0, changeable1].filter (addressedBy lc [[some 0, none, none, some 2, none]]) ∧
-    (mergeFixed lc true [changeable0, fixed1] [[some 0, none, none, some 2, none]]).2 = true ∧
-    (merge lc true [changeable0, fixed1] [[some 0, none, none, some 2, none]]).2 = false := by decide
+/-- REFUTED on /repo (`head`; finding `unaddressed-unwritable-blocks:deleteFilteredData`, removed by fixes/c04/02):
+    a delete that addresses only limit 0 gets different answers on two stores that differ only in limit 1. -/
+theorem c04_unaddressed_delete_refuted :
+    (remoteWrite head (storeOf [changeable0, fixed1]) [] .nil (.data ⟨some (selId 0), none⟩)).2
+      ≠ (remoteWrite head (storeOf [changeable0, changeable1]) [] .nil (.data ⟨some (selId 0), none⟩)).2 := by decide
+
+/-- PROVED for every member with `deleteStrict` off (`patched`): the verdict of a remote delete is "no unwritable
+    element is hit by the filter" — two stored lists with the same addressed elements (`notHit` false: hit, or the
+    selector cannot be evaluated on them) get the same verdict. -/
+theorem c04_unaddressed_irrelevant_delete (c : UCfg) (hc : c.deleteStrict = false) (sh : Shape) (f : Filter)
+    (ex ex' ip out ip' out' : List Item) (ok ok' : Bool)
+    (h : deleteFilteredF.go c sh true f ex = .ok (ip, out, ok))
+    (h' : deleteFilteredF.go c sh true f ex' = .ok (ip', out', ok'))
+    (hsame : ex.filter (fun x => !notHit c sh f x) = ex'.filter (fun x => !notHit c sh f x)) : ok = ok' :=
+  deleteFilteredF_fixed_irrelevant c hc sh f ex ex' ip out ip' out' ok ok' h h' hsame
+
+/-- PROVED (every member): an element the delete filter does not hit is, unchanged, in the result of a delete that
+    succeeded. -/
+theorem c04_unaddressed_kept_delete (c : UCfg) (sh : Shape) (remote : Bool) (f : Filter) (ex ip out : List Item)
+    (ok : Bool) (h : deleteFilteredF.go c sh remote f ex = .ok (ip, out, ok)) (hok : ok = true) :
+    ∀ x ∈ ex, notHit c sh f x = true → x ∈ out :=
+  deleteFilteredF_unaddressed_kept c sh remote f ex ip out ok h hok
+
+/-- non-vacuity: `patched` accepts the delete of limit 0 and keeps the unchangeable limit 1; a delete that addresses
+    limit 1 is still rejected -/
+example : patched.u.deleteStrict = false ∧
+    (remoteWrite patched (storeOf [changeable0, fixed1]) [] .nil (.data ⟨some (selId 0), none⟩)).1.readStore = [fixed1] ∧
+    (remoteWrite patched (storeOf [changeable0, fixed1]) [] .nil (.data ⟨some (selId 1), none⟩)).2 = .done false 1 none := by decide
 
 /-! ### clause 3: an error result leaves the data exactly as it was -/
 
-/-- REFUTED on the code as written (findings `rejected-but-applied:copyToAllData`, `…:copyToSelectedData`,
-    `…:deleteFilteredData`): writes answered with an error that changed the stored data. -/
-theorem c04_error_unchanged_refuted :
-    (∃ i, (remoteWrite aw (storeOf [changeable0, fixed1]) [[none, none, none, some 2, none]] .nodata .nil).2 = .done false i none) ∧
-    (remoteWrite aw (storeOf [changeable0, fixed1]) [[none, none, none, some 2, none]] .nodata .nil).1.readStore
+/-- STILL REFUTED on /repo (`head`) and on the patched member (findings `rejected-but-applied:copyToAllData`,
+    `…:copyToSelectedData`, `…:deleteFilteredData`; the in-place writes are codified by the repository's own tests):
+    writes answered with an error that changed the stored data. -/
+theorem c04_error_unchanged_refuted : ∀ c ∈ [head, patched],
+    (∃ i, (remoteWrite c (storeOf [changeable0, fixed1]) [[none, none, none, some 2, none]] .nodata .nil).2 = .done false i none) ∧
+    (remoteWrite c (storeOf [changeable0, fixed1]) [[none, none, none, some 2, none]] .nodata .nil).1.readStore
       ≠ (storeOf [changeable0, fixed1]).readStore ∧
-    (∃ i, (remoteWrite aw (storeOf [fixed1, changeable2]) [[none, none, none, some 2, none]] (.data ⟨some selAll, none⟩) .nil).2 = .done false i none) ∧
-    (remoteWrite aw (storeOf [fixed1, changeable2]) [[none, none, none, some 2, none]] (.data ⟨some selAll, none⟩) .nil).1.readStore
+    (∃ i, (remoteWrite c (storeOf [fixed1, changeable2]) [[none, none, none, some 2, none]] (.data ⟨some selAll, none⟩) .nil).2 = .done false i none) ∧
+    (remoteWrite c (storeOf [fixed1, changeable2]) [[none, none, none, some 2, none]] (.data ⟨some selAll, none⟩) .nil).1.readStore
       ≠ (storeOf [fixed1, changeable2]).readStore ∧
-    (∃ i, (remoteWrite aw (storeOf [changeable0, fixed1]) [] .nil (.data ⟨none, some elValue⟩)).2 = .done false i none) ∧
-    (remoteWrite aw (storeOf [changeable0, fixed1]) [] .nil (.data ⟨none, some elValue⟩)).1.readStore
-      ≠ (storeOf [changeable0, fixed1]).readStore :=
-  ⟨⟨1, by decide⟩, by decide, ⟨1, by decide⟩, by decide, ⟨1, by decide⟩, by decide⟩
+    (∃ i, (remoteWrite c (storeOf [changeable0, fixed1]) [] .nil (.data ⟨none, some elValue⟩)).2 = .done false i none) ∧
+    (remoteWrite c (storeOf [changeable0, fixed1]) [] .nil (.data ⟨none, some elValue⟩)).1.readStore
+      ≠ (storeOf [changeable0, fixed1]).readStore := by
+  intro c hc
+  simp only [List.mem_cons, List.mem_nil_iff, or_false] at hc
+  rcases hc with rfl | rfl <;>
+    exact ⟨⟨1, by decide⟩, by decide, ⟨1, by decide⟩, by decide, ⟨1, by decide⟩, by decide⟩
 
 /-- PROVED (partial, every member, as heap contents): an identifier-based partial write (the merge path) that is
     answered with an error leaves the stored data exactly as it was. -/
@@ -186,10 +253,10 @@ theorem c04_error_unchanged_merge (c : Cfg) (sh : Shape) (h : H) (hw : h.WF) (nw
     (updateData c sh h true true nw fp fd).1.readStore = h.readStore :=
   updateData_merge_noop c sh hw true true nw fp fd hp hd hnw hnf (Or.inr herr)
 
-/-- non-vacuity: the rejected write of clause 2 -/
-example : (remoteWrite aw (storeOf [changeable0, fixed1]) [[some 0, none, none, some 2, none]] .nodata .nil).2 = .done false 1 none ∧
-    MergeNw lc [[some 0, none, none, some 2, none]] ∧
-    fastPath aw ((storeOf [changeable0, fixed1]).allocValue [[some 0, none, none, some 2, none]]).1 true true .nodata .nil = false := by
+/-- non-vacuity: on /repo a partial write that addresses the unchangeable limit 1 is rejected -/
+example : (remoteWrite head (storeOf [changeable0, fixed1]) [[some 1, none, none, some 0, none]] .nodata .nil).2 = .done false 1 none ∧
+    MergeNw lc [[some 1, none, none, some 0, none]] ∧
+    fastPath head ((storeOf [changeable0, fixed1]).allocValue [[some 1, none, none, some 0, none]]).1 true true .nodata .nil = false := by
   decide
 
 /-- PROVED (code as written): on a list without unwritable elements every remote write whose delete filter names no
@@ -208,49 +275,42 @@ example : [changeable0, changeable2].all (writeAllowed lc) = true ∧
 
 /-! ### clause 4: success has applied all changes -/
 
-/-- REFUTED on the code as written (finding `success-but-not-applied:Merge`): a partial remote write with an
-    identifier that is not stored is answered with success and nothing was applied. -/
-theorem c04_success_applied_refuted :
-    (∃ i o, (remoteWrite aw (storeOf [changeable0]) [[some 5, none, none, some 2, none]] .nodata .nil).2 = .done true i o) ∧
-    (remoteWrite aw (storeOf [changeable0]) [[some 5, none, none, some 2, none]] .nodata .nil).1.readStore = [changeable0] :=
-  ⟨⟨1, some 2, by decide⟩, by decide⟩
+/-- PROVED at full strength on the merge path for every member with `mergeStrict` off — /repo since c542973: an
+    identifier-based remote write answered with success (i) names no identifier that is not stored, (ii) has
+    replaced every addressed element by the overlay of the incoming item (the last one with that identifier), which
+    is in the result, and (iii) the overlay carries every field the incoming item names except the flag. -/
+theorem c04_success_all_applied_merge (c : UCfg) (hc : c.mergeStrict = false) (sh : Shape) (s1 s2 : List Item)
+    (hok : (mergeF c sh true s1 s2).2 = true) :
+    (∀ b ∈ s2, ∃ a ∈ s1, hashKey sh a = hashKey sh b) ∧
+    ∀ a ∈ s1, ∀ b, lookupLast sh (hashKey sh a) s2 = some b →
+      mergeItem sh true s2 a ∈ (mergeF c sh true s1 s2).1 ∧
+      ∀ j, j < b.length → (b.get j).isSome = true → sh.flag ≠ some j → (mergeItem sh true s2 a).get j = b.get j := by
+  rw [mergeF_fixed c hc] at hok ⊢
+  obtain ⟨h1, h2⟩ := mergeFixed_success_applied sh s1 s2 hok
+  refine ⟨h1, fun a ha b hl => ?_⟩
+  obtain ⟨e, hm⟩ := h2 a ha b hl
+  exact ⟨hm, fun j hj hb hf => by rw [e]; exact updateFields_remote_applied sh a b j hj hb hf⟩
 
-/-- PROVED (partial, code as written): a remote merge answered with success has replaced every addressed element by
-    the overlay of the incoming item, and the overlay carries every field the incoming item names except the flag. -/
-theorem c04_success_applied_merge (sh : Shape) (s1 s2 : List Item) (hok : (merge sh true s1 s2).2 = true)
+/-- non-vacuity: accepted on /repo although limit 1 is not changeable; an unknown identifier is rejected now -/
+example : head.u.mergeStrict = false ∧
+    mergeF head.u lc true [changeable0, fixed1] [[some 0, none, none, some 2, none]] = ([[some 0, some 1, none, some 2, none], fixed1], true) ∧
+    (remoteWrite head (storeOf [changeable0]) [[some 5, none, none, some 2, none]] .nodata .nil).2 = .done false 1 none := by
+  decide
+
+/-- the same for the member before the repair, where success means "no element is unwritable" (kept because
+    `updateList` as written is what C02's theorems speak about) -/
+theorem c04_success_applied_merge_as_written (sh : Shape) (s1 s2 : List Item) (hok : (merge sh true s1 s2).2 = true)
     (a : Item) (ha : a ∈ s1) (b : Item) (hl : lookupLast sh (hashKey sh a) s2 = some b) :
     mergeItem sh true s2 a ∈ (merge sh true s1 s2).1 ∧
       ∀ j, j < b.length → (b.get j).isSome = true → sh.flag ≠ some j → (mergeItem sh true s2 a).get j = b.get j := by
   obtain ⟨h1, h2⟩ := merge_success_applied sh s1 s2 hok a ha b hl
   exact ⟨h2, fun j hj hb hf => by rw [h1]; exact updateFields_remote_applied sh a b j hj hb hf⟩
 
-/-- non-vacuity -/
-example : (merge lc true [changeable0, changeable1] [[some 1, none, none, some 0, none]]).2 = true ∧
-    lookupLast lc (hashKey lc changeable1) [[some 1, none, none, some 0, none]] = some [some 1, none, none, some 0, none] ∧
-    mergeItem lc true [[some 1, none, none, some 0, none]] changeable1 = [some 1, some 1, none, some 0, none] := by decide
-
-/-- PROVED for the repaired `Merge`: a remote write answered with success names no identifier that is not stored
-    and no addressed element is unwritable — so, with `c04_success_applied_merge`'s overlay, everything it asked
-    for was applied. -/
-theorem c04_success_nothing_missing_repaired (sh : Shape) (s1 s2 : List Item) (hok : (mergeFixed sh true s1 s2).2 = true) :
-    (∀ b ∈ s2, ∃ a ∈ s1, hashKey sh a = hashKey sh b) ∧
-    (∀ a ∈ s1, addressedBy sh s2 a = true → writeAllowed sh a = true) := by
-  have hb : (s1.any fun a => addressedBy sh s2 a && !writeAllowed sh a) = false ∧
-      (s2.any fun b => !(s1.any fun a => hashKey sh a = hashKey sh b)) = false := by
-    have : ((s1.any fun a => addressedBy sh s2 a && !writeAllowed sh a) ||
-        (s2.any fun b => !(s1.any fun a => hashKey sh a = hashKey sh b))) = false := by
-      simpa [mergeFixed] using hok
-    exact Bool.or_eq_false_iff.mp this
-  refine ⟨fun b hb' => ?_, fun a ha had => ?_⟩
-  · have := List.any_eq_false.mp hb.2 b hb'
-    simp only [Bool.not_eq_true, Bool.not_eq_false', List.any_eq_true, decide_eq_true_eq] at this
-    exact this
-  · have := List.any_eq_false.mp hb.1 a ha
-    simp only [had, Bool.true_and, Bool.not_eq_true, Bool.not_eq_false'] at this
-    exact this
-
-/-- non-vacuity: accepted by the repaired `Merge` although limit 1 is not changeable -/
-example : (mergeFixed lc true [changeable0, fixed1] [[some 0, none, none, some 2, none]]) = ([[some 0, some 1, none, some 2, none], fixed1], true) := by
-  decide
+/-- RECORD (member before c542973; finding `success-but-not-applied:Merge`, fixed): a partial remote write with an
+    identifier that is not stored was answered with success and nothing was applied. -/
+theorem c04_success_applied_refuted_before_fix :
+    (∃ i o, (remoteWrite aw (storeOf [changeable0]) [[some 5, none, none, some 2, none]] .nodata .nil).2 = .done true i o) ∧
+    (remoteWrite aw (storeOf [changeable0]) [[some 5, none, none, some 2, none]] .nodata .nil).1.readStore = [changeable0] :=
+  ⟨⟨1, some 2, by decide⟩, by decide⟩
 
 end Spine.Props.C04
